@@ -6,7 +6,7 @@ cd /repo || exit 2
 if [ -n "$(git status --porcelain --untracked-files=no)" ]; then echo "/repo not clean"; exit 2; fi
 git apply "$P" || { echo "patch does not apply"; exit 2; }
 cd /verif
-bin/check "$ID" "$TIER" > /tmp/trymut.$$.log 2>&1; rc=$?
+VERIF_EVIDENCE_DIR="$(cd "$(dirname "$0")/.." && pwd)/.work/evidence-scratch" bin/check "$ID" "$TIER" > /tmp/trymut.$$.log 2>&1; rc=$?
 git -C /repo checkout -- .
 grep -E "^(VIOLATION|KNOWN-FINDING|INCONCLUSIVE|BUILD)|signature=|seed=" /tmp/trymut.$$.log | head -12
 echo "exit=$rc"
